@@ -2,6 +2,7 @@ package e4
 
 import (
 	"context"
+	"errors"
 	"fmt"
 	"math/big"
 
@@ -24,11 +25,11 @@ func init() {
 	register(&simk.Prop{
 		ID:    "C38",
 		Level: "exploration",
-		Rule: "seeded histories (<=12 ops) over 3 sponsors and <=6 transactions: chunk builds through the real fee-bonding node (fdsmr.Node + internal/chain.Bonder on a database) with tx subsets that re-submit earlier transactions within and across chunks, block accepts that include some chunks and expire others in any order, maximum balances and fee rates from small sets incl. 0 and overflowing rates; after every operation each sponsor's pending bond, measured through the public Bond/Unbond API with zero-fee probes, is compared with the sum of the fees of its bonded, unsettled transactions, must not exceed its maximum, and is 0 once everything is settled; " +
+		Rule: "seeded histories (<=12 ops) over 3 sponsors and <=6 transactions: chunk builds through the real fee-bonding node (fdsmr.Node + internal/chain.Bonder on a database) with tx subsets that re-submit earlier transactions within and across chunks, block accepts that include some chunks and expire others in any order, injected failures of the inner chunk build (20% of the builds), maximum balances and fee rates from small sets incl. 0 and overflowing rates; after every operation each sponsor's pending bond, measured through the public Bond/Unbond API with zero-fee probes, is compared with the sum of the fees of its bonded, unsettled transactions, must not exceed its maximum, and is 0 once everything is settled; " +
 			"non-trivial = a transaction is submitted twice or a bond is refused; distinct = distinct history hashes",
-		Exec: c38,
-		Real: []string{"x/fdsmr.Node (BuildChunk, Accept)", "internal/chain.Bonder (Bond, Unbond, SetMaxBalance)", "internal/eheap"},
-		Stub: []string{"inner DSMR node (records built chunks, returns the chosen chunks on accept)", "state (map-backed state.Mutable holding the max balances)", "database (avalanchego memdb)"},
+		Exec:        c38,
+		Real:        []string{"x/fdsmr.Node (BuildChunk, Accept)", "internal/chain.Bonder (Bond, Unbond, SetMaxBalance)", "internal/eheap"},
+		Stub:        []string{"inner DSMR node (records built chunks, returns the chosen chunks on accept)", "state (map-backed state.Mutable holding the max balances)", "database (avalanchego memdb)"},
 		Assumptions: []string{"maximum balances are never lowered below an already bonded amount"},
 	})
 }
@@ -46,11 +47,18 @@ func (m mapState) Insert(_ context.Context, k, v []byte) error { m[string(k)] = 
 func (m mapState) Remove(_ context.Context, k []byte) error    { delete(m, string(k)); return nil }
 
 type stubDSMR struct {
-	built [][]*chain.Transaction
-	next  dsmr.ExecutedBlock[*chain.Transaction]
+	built    [][]*chain.Transaction
+	next     dsmr.ExecutedBlock[*chain.Transaction]
+	failNext bool // injected fault: the inner chunk build fails (rate limit, signing, storage error)
 }
 
+var errInnerBuild = errors.New("injected inner chunk build failure")
+
 func (s *stubDSMR) BuildChunk(_ context.Context, txs []*chain.Transaction, _ int64, _ codec.Address) error {
+	if s.failNext {
+		s.failNext = false
+		return errInnerBuild
+	}
 	s.built = append(s.built, append([]*chain.Transaction{}, txs...))
 	return nil
 }
@@ -63,12 +71,14 @@ type c38Op struct {
 	Kind  string `json:"op"` // build | accept
 	Txs   []int  `json:"txs,omitempty"`
 	Rate  uint64 `json:"fee_rate,omitempty"`
+	Fail  bool   `json:"inner_build_fails,omitempty"`
 	TS    int64  `json:"timestamp,omitempty"`
 	Chunk []int  `json:"accepted_txs,omitempty"`
 }
 
 func c38(r *simk.Run) *simk.Violation {
 	c := r.C
+	r.NewSim() // no scheduler needed; used for fault counters
 	ctx := context.Background()
 	sp := e2.Sponsors()[:3]
 	nTx := 1 + c.Intn(6)
@@ -194,14 +204,22 @@ func c38(r *simk.Run) *simk.Violation {
 			if len(op.Txs) == 0 {
 				continue
 			}
+			op.Fail = c.Bool(0.2)
 			hist = append(hist, op)
 			var list []*chain.Transaction
 			for _, i := range op.Txs {
 				list = append(list, txs[i])
 			}
+			inner.failNext = op.Fail
 			if err := node.BuildChunk(ctx, st, list, 10_000, codec.EmptyAddress, op.Rate); err != nil {
-				return &simk.Violation{Class: "C38/build-error", Detail: fmt.Sprintf("BuildChunk failed: %v", err)}
+				if !op.Fail || !errors.Is(err, errInnerBuild) {
+					return &simk.Violation{Class: "C38/build-error", Detail: fmt.Sprintf("BuildChunk failed: %v", err)}
+				}
+				r.S.FaultFired("inner-build-error")
+				interesting = true
 			}
+			inner.failNext = false
+			// (a failed inner build leaves the bonds in place: the transactions stay bonded until they expire)
 			for _, i := range op.Txs {
 				if _, dup := bonded[i]; dup {
 					interesting = true
